@@ -296,6 +296,8 @@ Inductive ev :=
 | EvData (ty n : Z)        (* peer: n more bytes on the representative stream of type ty (0 bidi-local, 1 bidi-remote, else uni) *)
 | EvOpen (ty n : Z)        (* peer: opens n more streams (ty 1 bidi, else uni) *)
 | EvCID (n : Z)            (* peer: n NEW_CONNECTION_ID frames with fresh sequence numbers *)
+| EvCIDRotate (k : Z)      (* peer: one NEW_CONNECTION_ID with a fresh sequence number whose Retire Prior To retires
+                              k >= 1 of the IDs the client stores (the one in use and the k-1 lowest queued ones) *)
 | EvDgram (len : Z)        (* peer: one DATAGRAM frame of total length len *)
 | EvGrant (k : kind) (w : Z) (* client: MAX_DATA / MAX_STREAM_DATA / MAX_STREAMS raising limit k to w *)
 | EvRetireCID              (* client: retires one stored connection ID *)
@@ -336,6 +338,12 @@ Definition client_step (e : env) (s : state) (x : ev) : state * option Z :=
   | EvCID n =>
     if negb (fits_client s KCID n) then (s, Some ConnectionIDLimitError)           (* connIDManager.Add: len(queue) >= MaxActiveConnectionIDs *)
     else (bump s KCID n, None)
+  | EvCIDRotate k =>
+    (* connIDManager.add: queued IDs below Retire Prior To are retired, the new ID is queued, the ID in
+       use is retired and replaced from the queue (updateConnectionID); Add checks the limit after all
+       of it (RFC 9000 5.1.1: the count is taken after retirement) *)
+    if negb (fits_client s KCID (1 - k)) then (s, Some ConnectionIDLimitError)
+    else (bump s KCID (1 - k), None)
   | EvDgram len =>
     if l_dgram (e_enf e) =? 0 then (s, Some FrameEncodingError)                    (* FrameParser.ParseType: unknown frame type *)
     else if len >? l_dgram (e_enf e) then (s, Some ProtocolViolation)              (* handleDatagramFrame *)
@@ -369,6 +377,7 @@ Definition peer_ok (e : env) (s : state) (x : ev) : bool :=
     (1 <=? n) && ((ty =? 0) || fits_peer s (cnt_kind ty) (implicit_open s ty)) && fits_peer s (sd_kind ty) n && fits_peer s KConn n
   | EvOpen ty n => (1 <=? n) && fits_peer s (cnt_kind ty) n
   | EvCID n => (0 <=? n) && fits_peer s KCID n
+  | EvCIDRotate k => (1 <=? k) && (k <=? used (s KCID)) && fits_peer s KCID (1 - k)
   | EvDgram len => (1 <=? len) && (len <=? dgram_cap (e_adv e))
   | EvGrant _ _ => true
   | EvRetireCID => true
